@@ -32,6 +32,13 @@ def inductive(run, wd, part):
 def replay_structural(prop, path, wd):
     with open(path) as f:
         rp = json.load(f)
+    if rp.get("kind") == "walk":
+        from . import walks
+        if walks.replay(rp, prop, wd):
+            print(f"VIOLATION property={prop} replay={path}  # reproduced: step {rp['step'] + 1} of the history deviates again")
+            return 1
+        print(f"replay of {path}: property {prop} holds on the current tree")
+        return 0
     if rp.get("kind") in ("repo-test", "idiom"):
         from . import repo_traces
         run = Run(prop, "quick", 0)
@@ -87,8 +94,9 @@ def c01(tier, seed, wd, replay):
         ST.run_config(run, "C01", name, consts, wd, caching=True)
         sim = ST.cfg("links-sim-4x4-e4", NV=4, InitBV=4, NL=4, MaxEnds=4, UseN=True, Kinds={"D", "U", "T", "D2"})
         ST.run_config(run, "C01", sim[0], sim[1], wd, simulate="num=300", depth=30, seed=seed + 1)
-    from . import repo_traces as _rt
+    from . import repo_traces as _rt, walks
     _rt.check_idioms(run, "C01", wd)                # usage idioms (/verif/idioms) recorded and judged like the repository's tests
+    walks.check(run, "C01", wd, ("links", "mixed"), 60 if tier == "quick" else 600, 40, seed)
     run.exhaustive = True
     run.assumptions = ASSUME_COMMON
     mandatory = [lambda c: c.startswith("setv:") and "self-loop" in c and "new=fresh" in c,
@@ -118,8 +126,10 @@ def _generic(prop, tier, seed, wd, replay, rule, quick_cfgs, thorough_cfgs, mand
     if repo_tests:
         from . import repo_traces
         repo_traces.check(run, prop, wd)
-    from . import repo_traces as _rt
+    from . import repo_traces as _rt, walks
     _rt.check_idioms(run, prop, wd)                 # usage idioms (/verif/idioms) recorded and judged like the repository's tests
+    walks.check(run, prop, wd, {"C02": ("unis", "mixed"), "C03": ("links", "unis", "mixed")}.get(prop, ("mixed",)),
+                60 if tier == "quick" else 600, 40, seed)
     if prop == "C03":
         from . import base_exec
         base_exec.check(run, wd, seed, tier)       # informational: BaseObject namespace (spec/EGBase.tla)
@@ -215,8 +225,9 @@ def c19(tier, seed, wd, replay):
         nt, _ = ST.run_config(run, "C19", name, consts, wd, caching=False)
         nontrivial |= nt
     lawattrs(run, wd, tier)
-    from . import repo_traces as _rt
+    from . import repo_traces as _rt, walks
     _rt.check_idioms(run, "C19", wd)
+    walks.check(run, "C19", wd, ("laws",), 60 if tier == "quick" else 600, 30, seed)
     run.exhaustive = True
     run.assumptions = ASSUME_COMMON
     return run.finish(nontrivial_filter=lambda c: c in nontrivial or c.startswith("lawattr"), mandatory=mandatory)
